@@ -1,0 +1,131 @@
+// Copyright 2025 The Go Authors. All rights reserved.
+// Use of this source code is governed by a BSD-style
+// license that can be found in the LICENSE file.
+
+//go:build verif
+
+package hpack
+
+// Contracts, spec functions and lemma harnesses for the deductive verifier in /verif (govc).
+// This file is compiled only with -tags verif; it adds no behaviour to the package.
+
+// ---------------------------------------------------------------------------
+// Integer representation (RFC 7541 section 5.1; properties C01, C02).
+//
+// Both loops run at most ten times for every input (the encoder shifts a 64-bit value right by
+// seven bits per iteration, the decoder gives up when its shift reaches 63), so they are unrolled
+// completely; the unwinding obligations prove that the bound is never exceeded, which makes the
+// unrolling a proof for all inputs, not a bounded check.
+//
+//@ func appendVarInt(dst, n, i) (out)
+//@   requires 1 <= n && n <= 8
+//@   ensures  len(out) > len(dst) && len(out) <= len(dst) + 11
+//@   ensures  forall k int :: 0 <= k && k < len(dst) ==> out[k] == old(dst[k])
+//@   loop 1 unroll 10
+//@   modifies elems(dst)
+//@   allocates
+//@
+//@ func readVarInt(n, p) (i, remain, err)
+//@   requires 1 <= n && n <= 8
+//@   ensures  err == nil ==> samebase(remain, p) && 1 <= suboff(remain, p) && suboff(remain, p) + len(remain) == len(p)
+//@   ensures  err != nil ==> samebase(remain, p) && suboff(remain, p) == 0 && len(remain) == len(p)
+//@   ensures  err != nil ==> (err == errNeedMore || err == errVarintOverflow) && i == 0
+//@   ensures  len(p) == 0 ==> err == errNeedMore
+//@   loop 1 unroll 10
+
+// prefixMax is 2^n-1, the largest value that fits the n-bit prefix.
+//
+//@ pure
+func prefixMax(n byte) uint64 { return uint64(1)<<n - 1 }
+
+// lemmaHpackIntRoundTrip: for every prefix width 1..8 and every value below 2^62, reading what
+// appendVarInt wrote returns the value and consumes exactly the bytes written.
+//
+//@ lemma
+//@ usebody appendVarInt, readVarInt
+//@ requires 1 <= n && n <= 8 && i < 1<<62
+//@ cases i < prefixMax(n) else i-prefixMax(n) < 1<<7 else i-prefixMax(n) < 1<<14 else i-prefixMax(n) < 1<<21 else i-prefixMax(n) < 1<<28 else i-prefixMax(n) < 1<<35 else i-prefixMax(n) < 1<<42 else i-prefixMax(n) < 1<<49 else i-prefixMax(n) < 1<<56
+//@ ensures ok
+func lemmaHpackIntRoundTrip(n byte, i uint64, pre []byte) (ok bool) {
+	b := appendVarInt(pre, n, i)
+	got, remain, err := readVarInt(n, b[len(pre):])
+	return err == nil && got == i && len(remain) == 0
+}
+
+// lemmaHpackIntTruncated: a strict prefix of an encoding is reported as incomplete, never as a
+// value and never by reading past the end.
+//
+//@ lemma
+//@ usebody appendVarInt, readVarInt
+//@ requires 1 <= n && n <= 8 && i < 1<<62 && 0 <= cut
+//@ cases i < prefixMax(n) else i-prefixMax(n) < 1<<7 else i-prefixMax(n) < 1<<14 else i-prefixMax(n) < 1<<21 else i-prefixMax(n) < 1<<28 else i-prefixMax(n) < 1<<35 else i-prefixMax(n) < 1<<42 else i-prefixMax(n) < 1<<49 else i-prefixMax(n) < 1<<56
+//@ ensures ok
+func lemmaHpackIntTruncated(n byte, i uint64, cut int) (ok bool) {
+	b := appendVarInt(nil, n, i)
+	if cut >= len(b) {
+		return true
+	}
+	_, _, err := readVarInt(n, b[:cut])
+	return err == errNeedMore
+}
+
+// ---------------------------------------------------------------------------
+// Decoder: buffer handling, limits and atomicity of "need more data" (properties C02, C03).
+
+// Trusted contracts (assumed, listed in the evidence): the table operations work on string-keyed
+// maps and are not modelled; the emit callback does not touch the decoder.
+//
+//@ func (*dynamicTable).add(dt, f)
+//@   trusted
+//@   modifies *dt
+//@ func (*dynamicTable).setMaxSize(dt, v)
+//@   trusted
+//@   modifies *dt
+//@ func (*Decoder).decodeString(d, u) (s, err)
+//@   trusted
+//@   ensures err == nil && !u.isHuff ==> len(s) == len(u.b)
+//@   ensures err != nil ==> err != errNeedMore
+
+//@ func (*Decoder).at(d, i) (hf, ok)
+//@   requires d != nil && len(d.dynTab.table.ents) <= 1<<32 && staticTable != nil && len(staticTable.ents) <= 1<<16
+//@   ensures  ok <==> (1 <= i && i <= uint64(len(staticTable.ents) + len(d.dynTab.table.ents)))
+//@
+//@ func (*Decoder).callEmit(d, hf) (err)
+//@   requires d != nil
+//@   ensures  err != nil <==> (d.maxStrLen != 0 && (len(hf.Name) > d.maxStrLen || len(hf.Value) > d.maxStrLen))
+//@   ensures  err != nil ==> err == ErrStringLength
+//@   assert at call emit: d.maxStrLen == 0 || (len(hf.Name) <= d.maxStrLen && len(hf.Value) <= d.maxStrLen)
+//@   noframe
+//@
+//@ func (*Decoder).readString(d, p) (u, remain, err)
+//@   requires d != nil && d.maxStrLen >= 0
+//@   ensures  err == nil ==> samebase(u.b, p) && samebase(remain, p) && 1 <= suboff(u.b, p)
+//@   ensures  err == nil ==> suboff(remain, p) == suboff(u.b, p) + len(u.b) && suboff(remain, p) + len(remain) == len(p)
+//@   ensures  err == nil && d.maxStrLen != 0 ==> len(u.b) <= d.maxStrLen
+//@   ensures  err != nil ==> err == errNeedMore || err == errVarintOverflow || err == ErrStringLength
+//@
+//@ func (*Decoder).parseFieldIndexed(d) (err)
+//@   requires d != nil && len(d.buf) >= 1 && len(d.dynTab.table.ents) <= 1<<32 && staticTable != nil && len(staticTable.ents) <= 1<<16
+//@   ensures  err == errNeedMore ==> unchanged(d.buf)
+//@   ensures  err == nil ==> samebase(d.buf, old(d.buf)) && 1 <= suboff(d.buf, old(d.buf)) && suboff(d.buf, old(d.buf)) + len(d.buf) == len(old(d.buf))
+//@   noframe
+//@
+//@ func (*Decoder).parseFieldLiteral(d, n, it) (err)
+//@   requires d != nil && d.maxStrLen >= 0 && len(d.buf) >= 1 && 1 <= n && n <= 8 && len(d.dynTab.table.ents) <= 1<<32 && staticTable != nil && len(staticTable.ents) <= 1<<16
+//@   ensures  err == errNeedMore ==> unchanged(d.buf) && unchanged(d.dynTab.size) && unchanged(d.dynTab.maxSize)
+//@   ensures  err == nil ==> samebase(d.buf, old(d.buf)) && 1 <= suboff(d.buf, old(d.buf)) && suboff(d.buf, old(d.buf)) + len(d.buf) == len(old(d.buf))
+//@   assert at call add: it == indexedTrue
+//@   noframe
+//@
+//@ func (*Decoder).parseDynamicTableSizeUpdate(d) (err)
+//@   requires d != nil && len(d.buf) >= 1
+//@   ensures  err == errNeedMore ==> unchanged(d.buf) && unchanged(d.dynTab.size) && unchanged(d.dynTab.maxSize)
+//@   ensures  err == nil ==> samebase(d.buf, old(d.buf)) && 1 <= suboff(d.buf, old(d.buf)) && suboff(d.buf, old(d.buf)) + len(d.buf) == len(old(d.buf))
+//@   assert at call setMaxSize: uint64($v) <= uint64(d.dynTab.allowedMaxSize)
+//@   noframe
+//@
+//@ func (*Decoder).parseHeaderFieldRepr(d) (err)
+//@   requires d != nil && d.maxStrLen >= 0 && len(d.buf) >= 1 && len(d.dynTab.table.ents) <= 1<<32 && staticTable != nil && len(staticTable.ents) <= 1<<16
+//@   ensures  err == errNeedMore ==> unchanged(d.buf) && unchanged(d.dynTab.size) && unchanged(d.dynTab.maxSize)
+//@   ensures  err == nil ==> samebase(d.buf, old(d.buf)) && 1 <= suboff(d.buf, old(d.buf)) && suboff(d.buf, old(d.buf)) + len(d.buf) == len(old(d.buf))
+//@   noframe
